@@ -4,6 +4,7 @@ package main
 
 import (
 	"fmt"
+	"regexp"
 	"go/token"
 	"go/types"
 	"sort"
@@ -134,6 +135,7 @@ type VC struct {
 	verifyingBody bool
 	absQuant bool // quantifiers over slice indices are rewritten to absolute addresses
 	jsonAx   bool
+	nlet     int
 	params   []*Val // entry values of the parameters (for replay)
 }
 
@@ -150,8 +152,29 @@ func (vc *VC) fresh(prefix, sort string) string {
 	return n
 }
 
+var boundVarRe = regexp.MustCompile(`\b[ql]_[A-Za-z$_0-9]*_[0-9]+`)
+
+// mentionsBound: the term has a free occurrence of a quantifier-bound variable
+// of the specification evaluator (q_<name>_<depth>, declared as "(q_x_0 Sort)"
+// in a binder). Such terms must stay inside their quantifier: they can be
+// neither named nor assumed at top level.
+func mentionsBound(t string) bool {
+	if !strings.Contains(t, "q_") && !strings.Contains(t, "l_") {
+		return false
+	}
+	for _, v := range boundVarRe.FindAllString(t, -1) {
+		if !strings.Contains(t, "("+v+" ") {
+			return true
+		}
+	}
+	return false
+}
+
 func (vc *VC) assume(t string) {
 	if t == "true" || t == "" {
+		return
+	}
+	if mentionsBound(t) {
 		return
 	}
 	vc.facts = append(vc.facts, "(assert "+t+")")
@@ -159,7 +182,7 @@ func (vc *VC) assume(t string) {
 
 // define names a term (keeps queries flat and shared).
 func (vc *VC) define(prefix, sort, term string) string {
-	if len(term) < 48 {
+	if len(term) < 48 || mentionsBound(term) {
 		return term
 	}
 	n := vc.fresh(prefix, sort)
@@ -207,7 +230,7 @@ func (o *Obligation) query(withModel bool) string {
 		b.WriteString(f)
 		b.WriteByte('\n')
 	}
-	for _, f := range vc.facts[:o.Prefix] {
+	for _, f := range relevantFacts(vc.facts[:o.Prefix], o.Hyp+" "+o.Goal) {
 		b.WriteString(f)
 		b.WriteByte('\n')
 	}
@@ -489,4 +512,96 @@ func (vc *VC) elemWfAxiom(h string, t types.Type) string {
 		return ""
 	}
 	return fmt.Sprintf("(forall ((a Int)) (! %s :pattern ((select %s a))))", and(fs...), h)
+}
+
+var localSymRe = regexp.MustCompile(`[A-Za-z_$.#][A-Za-z_$.#0-9]*![0-9]+`)
+var defRe = regexp.MustCompile(`^\(assert \(= ([A-Za-z_$.#][A-Za-z_$.#0-9]*![0-9]+) `)
+var declRe = regexp.MustCompile(`^\(declare-(?:const|fun) ([A-Za-z_$.#][A-Za-z_$.#0-9]*![0-9]+) `)
+
+// relevantFacts keeps the facts that can matter for a goal: the definitions of
+// the local symbols it mentions (transitively) and every non-definitional
+// assumption that mentions a relevant local symbol or no local symbol at all.
+// Dropping hypotheses is always sound (it can only make a proof harder).
+func relevantFacts(facts []string, goal string) []string {
+	type info struct {
+		syms []string
+		def  string // symbol defined by this fact ("" if not a definition)
+		decl string
+	}
+	infos := make([]info, len(facts))
+	defOf := map[string][]int{}
+	mention := map[string][]int{}
+	for i, f := range facts {
+		if m := declRe.FindStringSubmatch(f); m != nil {
+			infos[i].decl = m[1]
+			continue
+		}
+		seen := map[string]bool{}
+		for _, sy := range localSymRe.FindAllString(f, -1) {
+			if !seen[sy] {
+				seen[sy] = true
+				infos[i].syms = append(infos[i].syms, sy)
+			}
+		}
+		if m := defRe.FindStringSubmatch(f); m != nil {
+			infos[i].def = m[1]
+			defOf[m[1]] = append(defOf[m[1]], i)
+		} else {
+			for _, sy := range infos[i].syms {
+				mention[sy] = append(mention[sy], i)
+			}
+		}
+	}
+	rel := map[string]bool{}
+	keep := make([]bool, len(facts))
+	var work []string
+	add := func(sy string) {
+		if !rel[sy] {
+			rel[sy] = true
+			work = append(work, sy)
+		}
+	}
+	for _, sy := range localSymRe.FindAllString(goal, -1) {
+		add(sy)
+	}
+	// facts without local symbols (about parameters and entry heaps) always count
+	for i, f := range facts {
+		if infos[i].decl == "" && len(infos[i].syms) == 0 {
+			keep[i] = true
+			_ = f
+		}
+	}
+	for len(work) > 0 {
+		sy := work[len(work)-1]
+		work = work[:len(work)-1]
+		for _, i := range defOf[sy] {
+			if !keep[i] {
+				keep[i] = true
+				for _, s2 := range infos[i].syms {
+					add(s2)
+				}
+			}
+		}
+		for _, i := range mention[sy] {
+			if !keep[i] {
+				keep[i] = true
+				for _, s2 := range infos[i].syms {
+					add(s2)
+				}
+			}
+		}
+	}
+	var out []string
+	for i, f := range facts {
+		if infos[i].decl != "" {
+			if rel[infos[i].decl] {
+				out = append(out, f)
+			}
+			continue
+		}
+		if keep[i] {
+			out = append(out, f)
+		}
+	}
+	return out
 }
